@@ -68,6 +68,7 @@ def generate(rng, tier, index):
         sels.append([k, select.gen_selection(rng, im["lines"], im["pixels"])])
     return {"world": wp, "producer": producer, "location": location, "w": w_rpc, "r": r_rpc,
             "selections": sels, "scribble": rng.random() < 0.5,
+            "touch_images": rng.random() < 0.3,
             "relocate_to": {"backend": rng.choice(["local", "file", "simfs", "simfs_opt",
                                                    "memory"]),
                             "dirs": rng.choice([["moved"], ["up", "loaded"], []])},
@@ -165,6 +166,11 @@ def execute(plan):
             return common.outcome(SIM, violations, keys, stats)
         if violations:
             return common.outcome(SIM, violations, keys, stats)
+        if plan.get("touch_images") and w.backend in world.LOCAL:
+            # the image files get a newer modification time without a change of content (a copy /
+            # sync that does not preserve timestamps, a touch): the caches still describe them
+            w.touch_images()
+            bump("images-touched")
         have_user = {k[1][:-len(".index")] for k in w.user_index_files()}
         have_adj = {k[:-len(".index")] for k in w.adjacent()}
         if plan["restart"]:
